@@ -21,6 +21,24 @@ from vf.sim.world import World, classify_stop
 TRACE = ('aiuti/asyncio.py', 'asyncio/runners.py')
 
 
+class AnyEq:
+    """A result object that compares equal to everything."""
+
+    def __init__(self, key, inv):
+        self.key, self.inv = key, inv
+
+    def __eq__(self, other):
+        return True
+
+    def __ne__(self, other):
+        return False
+
+    __hash__ = object.__hash__
+
+    def __repr__(self):
+        return 'AnyEq(%r, %d)' % (self.key, self.inv)
+
+
 class InvBaseFailure(BaseException):
     """Same, deriving directly from BaseException (like pytest's outcome exceptions)."""
 
@@ -145,7 +163,9 @@ def run(case, max_steps=300000):
                     rec['exc'] = InvFailure(me) if plan['outcome'] == 'raise' else InvBaseFailure(me)
                     raise rec['exc']
                 rec['kind'] = 'ret'
-                rec['value'] = None if plan['outcome'] == 'ret_none' else ('value', key, me)      # None is a result too
+                # None is a result too; so is an object that compares equal to everything (unittest.mock.ANY-like)
+                rec['value'] = None if plan['outcome'] == 'ret_none' else AnyEq(key, me) if plan['outcome'] == 'ret_any' \
+                    else ('value', key, me)
                 return rec['value']
             except aio.CancelledError:
                 if not sim.aborted:
